@@ -2066,6 +2066,49 @@ def c09f(F, R):
         raise Anchor("no assignment to the lexer cursor found")
 
 
+_DT = "riscv_analysis::parser::directive::DirectiveToken"
+
+
+def _directive_stop_tests(body):
+    """the `If` nodes inside loops of `body` whose condition is 'this directive is DirectiveToken::<X>', in any of the spellings: `d == X`, `matches!(d, X | Ok(X))`, `if let X | Ok(X) = d`, or a named boolean bound to one of those. -> [(variant, loop, if_node)]"""
+    lets = {}
+    for s_ in walk(body, pats=False):
+        if s_.get("k") == "Let" and s_["pat"].get("k") == "PBinding" and s_.get("init") is not None:
+            lets.setdefault(s_["pat"]["name"], s_)
+
+    def dt_of_pat(pat):
+        return sorted({short(y.get("res") or y.get("path") or "") for y in walk(pat) if ((y.get("res") or y.get("path") or "")).startswith(_DT + "::")})
+
+    def variants(c, depth=0):
+        c = peel_cond(c)
+        if c.get("k") == "LetExpr":
+            return dt_of_pat(c["pat"])
+        c = peel(c)
+        if c.get("k") == "Binary" and c["op"] == "Eq":
+            out = []
+            for side in (peel(c["a"]), peel(c["b"])):
+                for y in walk(side, pats=False):
+                    if y.get("k") == "Path" and (y.get("res") or "").startswith(_DT + "::"):
+                        out.append(short(y["res"]))
+            return sorted(set(out))
+        if c.get("k") == "Match" and len(c.get("arms", [])) == 2 and lit_value(c["arms"][0]["body"]) is True:
+            return dt_of_pat(c["arms"][0]["pat"])
+        if c.get("k") == "Path" and c.get("res_kind") == "Local" and depth < 2 and c["res"] in lets:
+            return variants(lets[c["res"]]["init"], depth + 1)
+        return []
+
+    out = []
+    for lp in walk(body, pats=False):
+        if lp.get("k") != "Loop":
+            continue
+        for x in walk(lp["body"], pats=False):
+            if x.get("k") == "If":
+                for v in variants(x["cond"]):
+                    out.append((v, lp, x))
+    return out
+
+
+
 @rule("C07", "C07.m.directive-vocabulary", floor=22)
 def c07m(F, R):
     """every directive spelling of the target assembler (RARS, reference/rars_directives.json) is in `DirectiveToken::from_str`, and the spelling that closes a macro there (`.end_macro`) maps to the variant on which the macro-skipping loop stops: a terminator the table does not know makes the loop discard the rest of the file without a word"""
@@ -2089,34 +2132,17 @@ def c07m(F, R):
             R.ok(f"directive|{d}", detail=f"{d} -> DirectiveToken::{text2var[d]}")
         else:
             R.bad(f"directive|{d}", f"the RARS directive `{d}` is not in DirectiveToken::from_str", loc(m))
-    # the loop that skips a macro body: `if new_dir == DirectiveToken::<X> { break }`
+    # the loop that skips a macro body: `if new_dir == DirectiveToken::<X> { break }` in any spelling
     pf = [q for q in F.fns if q.endswith("::try_from") and "ParserNode" in q and "TryFrom" in q]
     stops = []
     for q in pf:
-        for lp in walk(F.fn(q)["hir"]["value"], pats=False):
-            if lp.get("k") != "Loop":
-                continue
-            for b in walk(lp["body"], pats=False):
-                if b.get("k") == "Binary" and b["op"] == "Eq":
-                    for side in (peel(b["a"]), peel(b["b"])):
-                        if side.get("k") == "Path" and (side.get("res") or "").startswith(DT + "::"):
-                            stops.append((short(side["res"]), b))
-    stop_vs = sorted({v for v, _ in stops})
-    # the comparison must actually leave the loop
-    if stops:
-        pm_ = parent_map(F.fn(pf[0])["hir"]["value"]) if pf else {}
-        for v_, b_ in stops:
-            x_ = b_
-            iff = None
-            while id(x_) in pm_:
-                x_ = pm_[id(x_)]
-                if x_.get("k") == "If" and any(y is b_ for y in walk(x_["cond"], pats=False)):
-                    iff = x_
-                    break
-            if iff is None or not any(y.get("k") == "Break" for y in walk(iff["then"], pats=False)):
-                R.bad(f"macro-skip|leaves|{v_}", f"the macro-skipping loop compares a directive with {v_} but does not `break` when they are equal: the macro never ends and the rest of the file is discarded", loc(b_))
+        for v_, lp_, iff in _directive_stop_tests(F.fn(q)["hir"]["value"]):
+            stops.append((v_, iff))
+            if not any(y.get("k") == "Break" for y in walk(iff["then"], pats=False)):
+                R.bad(f"macro-skip|leaves|{v_}", f"the macro-skipping loop compares a directive with {v_} but does not `break` when they are equal: the macro never ends and the rest of the file is discarded", loc(iff))
             else:
                 R.ok(f"macro-skip|leaves|{v_}", detail=f"`break` on {v_}", where=loc(iff))
+    stop_vs = sorted({v for v, _ in stops})
     if not stops:
         R.bad("macro-skip|stop", "UNEXTRACTABLE: no loop that stops on a DirectiveToken variant (the macro-skipping loop) found in the node parser", None)
         return
@@ -2131,53 +2157,100 @@ def c07m(F, R):
 @rule("C17", "C17.k.value-lists-take-numbers-only", floor=1)
 @rule("C07", "C07.n.lists-that-cross-lines-take-numbers-only", floor=1)
 def c07n(F, R):
-    """a decoder loop that steps over newline tokens (a value list continued on the following lines) may absorb nothing but numbers: a token that could begin a statement of its own - a name, a register, a string - must end the list, or a following line made of names (`halt now`, a misspelt mnemonic) disappears into the list without a diagnostic"""
+    """a decoder loop that steps over newline tokens (a value list continued on the following lines) may absorb nothing but numbers: a token that could begin a statement of its own - a name, a register, a string - must end the list, or a following line made of names (`halt now`, a misspelt mnemonic) disappears into the list without a diagnostic. Every place in such a loop where a token is consumed is justified either by "it is a line end" or by "it read as an immediate", and a token that is neither makes the loop leave"""
     p = F.method(PNODE, "try_from", trait_ref=r"TryFrom<&mut core::iter::adapters::peekable::Peekable")
     f = F.fn(p)
     body = f["hir"]["value"]
+    pm = parent_map(body)
+    lets = {}
+    for s_ in walk(body, pats=False):
+        if s_.get("k") == "Let" and s_["pat"].get("k") == "PBinding" and s_.get("init") is not None:
+            lets.setdefault((s_["pat"]["name"], s_["pat"].get("lid")), s_)
+
+    def line_end_test(c):
+        """is this condition 'the token is a newline (or comment)'? follows one named boolean"""
+        c = peel_cond(c)
+        if c.get("k") == "LetExpr":
+            vs = {short(v) for k_, v in pat_variants(c["pat"]) if k_ == "path" and v and "TokenType" in v}
+            return bool(vs) and vs <= {"Newline", "Comment"} and "Newline" in vs
+        c = peel(c)
+        if c.get("k") == "Match" and len(c.get("arms", [])) == 2 and lit_value(c["arms"][0]["body"]) is True:
+            vs = {short(v) for k_, v in pat_variants(c["arms"][0]["pat"]) if k_ == "path" and v and "TokenType" in v}
+            return bool(vs) and vs <= {"Newline", "Comment"} and "Newline" in vs
+        if c.get("k") == "Path" and c.get("res_kind") == "Local":
+            st = lets.get((c["res"], c.get("lid"))) or next((v for (nm, _), v in lets.items() if nm == c["res"]), None)
+            if st is not None:
+                return line_end_test(st["init"])
+        return False
+
+    def kind_test(c):
+        """`let Ok(x) = tok.as_<kind>()` / `tok.is_<kind>()` -> kind name, else None"""
+        c = peel_cond(c)
+        src = c["init"] if c.get("k") == "LetExpr" else c
+        kinds = sorted({m["name"] for m in walk(src, pats=False) if m.get("k") == "MethodCall" and (m["name"].startswith("as_") or m["name"].startswith("is_"))} - {"is_ok", "is_err", "is_some", "is_none", "as_ref", "as_str"})
+        return kinds
+
     n = 0
     for lp in walk(body, pats=False):
         if lp.get("k") != "Loop":
             continue
-        # branches of the loop body: `if let Newline = tok.token_type() { get_any } else if <cond> { get_any; .. } else { break }`
-        ifs = [x for x in walk(lp["body"], pats=False) if x.get("k") == "If"]
-        nl = [x for x in ifs if peel_cond(x["cond"]).get("k") == "LetExpr" and any(v and v.endswith("TokenType::Newline") for k_, v in pat_variants(peel_cond(x["cond"])["pat"]) if k_ == "path")
-              and any(m.get("k") == "MethodCall" and m["name"] == "get_any" for m in walk(x["then"], pats=False))]
-        if not nl:
+        inner = list(walk(lp["body"], pats=False))
+        consumes = [m for m in inner if m.get("k") == "MethodCall" and m["name"] in ("get_any", "get_reg", "get_label", "get_string", "get_imm", "get_csrimm") and pm_loop(pm, m) is lp]
+        tests_nl = [x for x in inner if (x.get("k") == "If" and line_end_test(x["cond"]))]
+        if not consumes or not tests_nl:
             continue
         n += 1
-        # walk the else-if chain starting at the newline test
-        x = nl[0].get("else")
-        i = 0
-        while x is not None:
-            x = peel(x)
-            while x.get("k") == "Block" and not x.get("stmts") and x.get("expr") is not None:
-                x = peel(x["expr"])
-            if x.get("k") != "If":
-                break
-            i += 1
-            consumes = any(m.get("k") == "MethodCall" and m["name"] in ("get_any", "get_reg", "get_label", "get_string", "get_imm", "get_csrimm") for m in walk(x["then"], pats=False))
-            c = peel_cond(x["cond"])
-            kinds = sorted({m["name"] for m in walk(c, pats=False) if m.get("k") == "MethodCall" and (m["name"].startswith("as_") or m["name"].startswith("is_"))} - {"is_ok", "is_err", "is_some", "is_none"})
-            if consumes:
-                if kinds == ["as_imm"]:
-                    R.ok(f"loop#{n}|branch#{i}", detail="absorbs a token only if it is a number", where=loc(x))
-                else:
-                    R.bad(f"loop#{n}|branch#{i}|{'+'.join(kinds) or 'other'}", f"a list that continues over newlines absorbs a token under `{ekey(c)[:70]}` ({kinds or 'no kind test'}): a following line that consists of such tokens vanishes into the list - no node of its own, no parse error", loc(x))
-            last = x
-            x = x.get("else")
-        # the loop looks ahead without consuming: the branch that takes nothing must leave it
-        tail = nl[0]
-        while tail.get("else") is not None and peel(tail["else"]).get("k") in ("If",) or (tail.get("else") is not None and peel(tail["else"]).get("k") == "Block" and not peel(tail["else"]).get("stmts") and peel(peel(tail["else"]).get("expr") or {}).get("k") == "If"):
-            t_ = peel(tail["else"])
-            tail = t_ if t_.get("k") == "If" else peel(t_["expr"])
-        fin = tail.get("else")
-        if fin is None or not any(y.get("k") in ("Break", "Ret") for y in walk(fin, pats=False)):
-            R.bad(f"loop#{n}|final-else", "the value-list loop peeks at the next token and, when it is neither a line end nor a number, does not leave: nothing is consumed and the loop spins for ever on that token", loc(tail))
+        for i_, m in enumerate(consumes):
+            reasons = []
+            x = m
+            while x is not lp and id(x) in pm:
+                par = pm[id(x)]
+                if par.get("k") == "If" and (par.get("then") is x or any(y is x for y in [par.get("then")])):
+                    if line_end_test(par["cond"]):
+                        reasons.append("line-end")
+                    else:
+                        ks = kind_test(par["cond"])
+                        if ks:
+                            reasons.append("kind:" + "+".join(ks))
+                if par.get("k") == "Block":
+                    for st in par.get("stmts", []):
+                        if st is x or any(y is x for y in walk(st, pats=False)):
+                            break
+                        if st.get("k") == "Let" and st.get("els") is not None and st.get("init") is not None and any(y.get("k") in ("Break", "Ret") for y in walk(st["els"], pats=False)):
+                            ks = sorted({mm["name"] for mm in walk(st["init"], pats=False) if mm.get("k") == "MethodCall" and mm["name"].startswith("as_")} - {"as_ref", "as_str"})
+                            if ks:
+                                reasons.append("kind:" + "+".join(ks))
+                x = par
+            key = f"loop#{n}|consume#{i_ + 1}"
+            kinds = [r_ for r_ in reasons if r_.startswith("kind:")]
+            if "line-end" in reasons:
+                R.ok(key, detail="a line end is stepped over", where=loc(m))
+            elif kinds == ["kind:as_imm"]:
+                R.ok(key, detail="absorbs a token only if it read as a number", where=loc(m))
+            elif kinds:
+                R.bad(key + "|" + kinds[0][5:], f"a list that continues over newlines absorbs a token under a `{kinds[0][5:]}` test: a following line that consists of such tokens vanishes into the list - no node of its own, no parse error", loc(m))
+            else:
+                R.bad(key + "|unjustified", "a list that continues over newlines consumes a token without having established that it is a number or a line end", loc(m))
+        # leaving: some break/return whose reaching means "neither a line end nor a number", or the loop condition itself fails on read errors
+        leaves = [y for y in inner if y.get("k") in ("Break", "Ret") and not (y.get("exp") or "").startswith("desugar:") and pm_loop(pm, y) is lp]
+        tries = [y for y in inner if y.get("k") == "Match" and y.get("src") == "TryDesugar"]
+        real_leaves = [y for y in leaves if not any(z is y for t_ in tries for z in walk(t_, pats=False))]
+        if real_leaves:
+            R.ok(f"loop#{n}|leaves", detail="a token that is not taken ends the list", where=loc(real_leaves[0]))
         else:
-            R.ok(f"loop#{n}|final-else", detail="a token that is not taken ends the list", where=loc(fin))
+            R.bad(f"loop#{n}|final-else", "the value-list loop has no way out for a token that is neither a line end nor a number: nothing is consumed and the loop spins for ever on that token", loc(lp))
     if n == 0:
         R.bad("shape", "UNEXTRACTABLE: no decoder loop that steps over newline tokens (the data value list) found", f["sp"])
+
+
+def pm_loop(pm, node):
+    """innermost Loop that contains node"""
+    x = node
+    while id(x) in pm:
+        x = pm[id(x)]
+        if x.get("k") == "Loop":
+            return x
+    return None
 
 
 @rule("C07", "C07.o.a-skipped-region-ends-only-at-its-terminator", floor=1)
@@ -2191,8 +2264,7 @@ def c07o(F, R):
     for lp in walk(body, pats=False):
         if lp.get("k") != "Loop":
             continue
-        stops = [b for b in walk(lp["body"], pats=False) if b.get("k") == "Binary" and b["op"] == "Eq" and any(peel(s_).get("k") == "Path" and (peel(s_).get("res") or "").startswith(DT + "::") for s_ in (b["a"], b["b"]))]
-        if stops:
+        if any(l_ is lp for _, l_, _ in _directive_stop_tests(body)):
             loops.append(lp)
     if not loops:
         R.bad("shape", "UNEXTRACTABLE: no loop that discards tokens up to a closing directive found", f["sp"])
